@@ -1106,7 +1106,7 @@ func c15TextReplay(raw json.RawMessage) bool {
 }
 
 func c15Replay(c *core.Ctx, payload json.RawMessage) {
-	if c15DefaultsReplay(c, payload) {
+	if c15DefaultsReplay(c, payload) || c15ConcurrentReplay(c, payload) {
 		return
 	}
 	if c15TextReplay(payload) {
